@@ -46,6 +46,11 @@ class AdjointTape(Interpretation):
         if cls in adjoint_ops:  # atomic op, don't trace internals
             with self._old_interpretation:
                 result = cls(*args)
+            if any(result is arg for arg in args):
+                # An identity op (e.g. a substitution that renames nothing) must
+                # not be taped: its output is its own input and the adjoint of
+                # that term would be accumulated twice.
+                return result
             self.tape.append((result, cls, args))
         else:
             result = self._old_interpretation.interpret(cls, *args)
